@@ -9,4 +9,4 @@ git -C /repo worktree add --detach $wt HEAD -q || exit 2
 trap 'git -C /repo worktree remove --force $wt' EXIT
 cd $wt; git apply "$f" || exit 2
 find src tests -name '*.rs' -exec touch {} +
-cargo nextest run --offline --lib --no-fail-fast -E "test($filt)" 2>&1 | grep -vE "^\s+(Compiling|Blocking)" | tail -40
+cargo nextest run --offline --lib --no-fail-fast -E "test($filt)" 2>&1 | grep -vE "^\s+(Compiling|Blocking)" | grep -vE "^\s+[0-9]+: |^\s+at " | tail -60
